@@ -147,3 +147,197 @@ pub fn huge_foreign_file() -> Result<u64, Violation> {
     }
     Ok(done)
 }
+
+/// C08 on a file whose FAT sectors are exactly full and that carries trailing non-zero bytes
+/// no FAT sector covers (accepted by both open modes): growing a stream appends sectors into
+/// that region; the gained bytes must still read as zero.
+pub fn trailing_garbage_growth() -> Result<u64, Violation> {
+    let what = "file with exactly full FAT sectors and trailing garbage, then set_len growth";
+    let mut done = 0;
+    for &version in &[3u8, 4u8] {
+        let per = if version == 3 { 128usize } else { 1024 };
+        let sl = if version == 3 { 512usize } else { 4096 };
+        // fill the file to exactly `per` sectors with one big stream
+        let mut found = None;
+        for big in ((per - 6) * sl..(per - 1) * sl).step_by(sl) {
+            let o = Oracles::default();
+            let mut eng = Engine::new(version, None, vec![], o).map_err(|f| huge_fail(what, f))?;
+            eng.io.cap = 512 << 20;
+            eng.step(&Op::CreateStream { p: raw("/fill".into()), data: DataSpec { len: big as u32, seed: 5 } }).map_err(|f| huge_fail(what, f))?;
+            eng.step(&Op::CreateStream { p: raw("/small".into()), data: DataSpec { len: 300, seed: 6 } }).map_err(|f| huge_fail(what, f))?;
+            eng.close_all_handles().map_err(|f| huge_fail(what, f))?;
+            let snap = eng.snapshot();
+            if let Ok(p) = refparse::parse(&snap) {
+                if p.nsectors == per && p.fat.iter().take(per).all(|&c| c != refparse::FREESECT) {
+                    found = Some((snap, eng.model.clone()));
+                    break;
+                }
+            }
+        }
+        let (mut img, model) = match found {
+            Some(x) => x,
+            None => return Err(huge_fail(what, Fail::new("harness|scenario", format!("could not fill a V{} file to exactly {} sectors", version, per)))),
+        };
+        img.extend(std::iter::repeat(0x41u8).take(6 * sl + 100));
+        for strict in [false, true] {
+            let o = Oracles { grow_check: true, no_strict: true, ..Oracles::default() };
+            let mut eng = Engine::from_image(img.clone(), model.clone(), version, None, vec![], o, strict).map_err(|f| huge_fail(what, f))?;
+            eng.io.cap = 512 << 20;
+            for op in [
+                Op::CreateStream { p: raw("/g".into()), data: DataSpec { len: 10, seed: 1 } },
+                Op::SetLen { p: raw("/g".into()), len: LenSpec::Abs(5000) },
+                Op::SetLen { p: raw("/small".into()), len: LenSpec::Abs(4200) },
+                Op::SetLen { p: raw("/g".into()), len: LenSpec::Abs(3 * sl as u32 + 4097) },
+                Op::ReadAll { p: raw("/g".into()) },
+                Op::ReadAll { p: raw("/small".into()) },
+                Op::ReadAll { p: raw("/fill".into()) },
+            ] {
+                eng.step(&op).map_err(|f| huge_fail(what, f))?;
+                done += 1;
+            }
+            eng.check_live_dump().map_err(|f| huge_fail(what, f))?;
+        }
+    }
+    Ok(done)
+}
+
+/// C17 under injected write faults: a metadata setter fails at its N-th write/seek/flush call
+/// (every N, two error kinds, with and without side effects of the failing call), the caller
+/// repeats it (same value, or a different one), and once a call has returned Ok the value is
+/// what entry() shows and what the raw bytes show when reopened in both modes.
+pub fn metadata_retry_after_fault() -> Result<(u64, u64), Violation> {
+    use crate::backend::{FaultDomain, Io};
+    use crate::fault::new_ctl;
+    use std::io::Write;
+    use std::time::{Duration, SystemTime, UNIX_EPOCH};
+    let what = "metadata setter fails on an injected write fault and is repeated";
+    let fail = |key: &str, detail: String, trace: &Vec<String>| Violation { key: key.to_string(), detail: format!("[{}] {}", what, detail), case: serde_json::json!({"scenario": what}), trace: trace.clone() };
+    let mut plans = 0u64;
+    let mut fired_plans = 0u64;
+    let targets: [(&str, bool); 4] = [("/", true), ("/st", true), ("/st/inner", true), ("/st/s", false)];
+    for &version in &[3u8, 4u8] {
+        for setter in 0..5u8 {
+            for &(path, is_storage) in targets.iter() {
+                if setter == 1 && !is_storage {
+                    continue;
+                }
+                if path == "/" && setter >= 2 {
+                    continue;
+                }
+                for same_value in [true, false] {
+                    for &kind in &[std::io::ErrorKind::Other, std::io::ErrorKind::TimedOut] {
+                        for side in [false, true] {
+                            let mut n = 0u64;
+                            loop {
+                                n += 1;
+                                plans += 1;
+                                let mut trace = vec![format!("V{} setter {} on {} same_value={} kind={:?} side_effects={} fault at call {}", version, setter, path, same_value, kind, side, n)];
+                                let ctl = new_ctl(FaultDomain::WriteSide);
+                                let io = Io::new().with_ctl(ctl.clone());
+                                let img = io.peer();
+                                let v = if version == 3 { cfb::Version::V3 } else { cfb::Version::V4 };
+                                let mut c = cfb::CompoundFile::create_with_version(v, io).map_err(|e| fail("harness|create", e.to_string(), &trace))?;
+                                (|| -> std::io::Result<()> {
+                                    c.create_storage("/st")?;
+                                    for i in 0..7 {
+                                        c.create_storage(format!("/fill{}", i))?;
+                                    }
+                                    c.create_storage("/st/inner")?;
+                                    c.create_stream("/st/s")?.write_all(&[7u8; 100])?;
+                                    c.flush()
+                                })()
+                                .map_err(|e| fail("harness|setup", e.to_string(), &trace))?;
+                                let t1 = UNIX_EPOCH + Duration::new(1_000_000_000 + n, 500);
+                                let t2 = UNIX_EPOCH + Duration::new(1_500_000_000 + n, 700);
+                                let id1 = uuid::Uuid::from_u128(0x1111_2222_3333_4444_5555_6666_7777_8888 + n as u128);
+                                let id2 = uuid::Uuid::from_u128(0x9999_aaaa_bbbb_cccc_dddd_eeee_ffff_0000 + n as u128);
+                                let apply = |c: &mut cfb::CompoundFile<Io>, second: bool| -> std::io::Result<()> {
+                                    let alt = second && !same_value;
+                                    match setter {
+                                        0 => c.set_state_bits(path, if alt { 0x0badf00d } else { 0xdeadbeef }),
+                                        1 => c.set_storage_clsid(path, if alt { id2 } else { id1 }),
+                                        2 => c.set_created_time(path, if alt { t2 } else { t1 }),
+                                        3 => c.set_modified_time(path, if alt { t2 } else { t1 }),
+                                        _ => c.touch(path),
+                                    }
+                                };
+                                {
+                                    let mut g = ctl.lock().unwrap();
+                                    g.fault_at = vec![n];
+                                    g.fault_kind = kind;
+                                    g.fault_side_effects = side;
+                                    g.domain_seq = 0;
+                                    g.faults_enabled = true;
+                                }
+                                let before = SystemTime::now();
+                                let r1 = guard("setter", || apply(&mut c, false)).map_err(|f| fail(&f.key, f.detail, &trace))?;
+                                let fired = !ctl.lock().unwrap().fired.is_empty();
+                                ctl.lock().unwrap().faults_enabled = false;
+                                trace.push(format!("first call -> {:?}; fault fired: {}", r1.as_ref().map_err(|e| e.to_string()), fired));
+                                if !fired {
+                                    if let Err(e) = r1 {
+                                        return Err(fail("mismatch|setter|no_fault|Ok|Err", format!("setter failed without a fault: {}", e), &trace));
+                                    }
+                                    break;
+                                }
+                                fired_plans += 1;
+                                if r1.is_ok() {
+                                    return Err(fail("write_fault|setter|fault_swallowed", "a write fault fired during the setter but it returned Ok".to_string(), &trace));
+                                }
+                                let r2 = guard("setter", || apply(&mut c, true)).map_err(|f| fail(&f.key, f.detail, &trace))?;
+                                trace.push(format!("second call -> {:?}", r2.as_ref().map_err(|e| e.to_string())));
+                                if r2.is_err() {
+                                    // a later call may fail after a fault; nothing to judge
+                                    continue;
+                                }
+                                let show = |e: &cfb::Entry| (e.state_bits(), *e.clsid(), e.created(), e.modified());
+                                let live = match if path == "/" { Ok(c.root_entry()) } else { c.entry(path) } {
+                                    Ok(e) => show(&e),
+                                    Err(e) => return Err(fail("mismatch|entry|after_setter|Ok|Err", e.to_string(), &trace)),
+                                };
+                                let alt = !same_value;
+                                let zero_time = UNIX_EPOCH - Duration::from_secs(11_644_473_600);
+                                let ok_live = match setter {
+                                    // time setters leave streams untouched: always the zero FILETIME
+                                    2 | 3 | 4 if !is_storage => live.2 == zero_time && live.3 == zero_time,
+                                    0 => live.0 == if alt { 0x0badf00d } else { 0xdeadbeef },
+                                    1 => live.1 == if alt { id2 } else { id1 },
+                                    2 => live.2 == if alt { t2 } else { t1 },
+                                    3 => live.3 == if alt { t2 } else { t1 },
+                                    _ => live.3 >= before - Duration::from_micros(1) && live.3 <= SystemTime::now(),
+                                };
+                                if !ok_live {
+                                    return Err(fail("mismatch|entry|after_repeated_setter|value", format!("the setter returned Ok but entry() shows {:?}", live), &trace));
+                                }
+                                c.flush().ok();
+                                let bytes = img.snapshot();
+                                for strict in [false, true] {
+                                    let opened = guard("open", || open_options(None, strict).open_with(Io::from_bytes(bytes.clone()))).map_err(|f| fail(&f.key, f.detail, &trace))?;
+                                    let again = match opened {
+                                        Ok(a) => a,
+                                        Err(e) => return Err(fail("reopen|after_repeated_setter|open_fails", format!("strict={}: {}", strict, e), &trace)),
+                                    };
+                                    let got = match if path == "/" { Ok(again.root_entry()) } else { again.entry(path) } {
+                                        Ok(e) => show(&e),
+                                        Err(e) => return Err(fail("reopen|after_repeated_setter|entry_missing", e.to_string(), &trace)),
+                                    };
+                                    if got != live {
+                                        return Err(fail(
+                                            "reopen|after_repeated_setter|metadata_differs",
+                                            format!("the setter returned Ok and entry() shows {:?}, but the raw bytes reopened (strict={}) show {:?}", live, strict, got),
+                                            &trace,
+                                        ));
+                                    }
+                                }
+                                if n > 200 {
+                                    return Err(fail("harness|scenario", "a metadata setter makes more than 200 write-side calls".to_string(), &trace));
+                                }
+                            }
+                        }
+                    }
+                }
+            }
+        }
+    }
+    Ok((plans, fired_plans))
+}
